@@ -3,7 +3,7 @@ from __future__ import annotations
 
 import numpy as np
 
-BUILDERS = ["bw", "bw_ff", "analytic", "ff", "non_dynamic"]
+BUILDERS = ["bw", "bw_ff", "analytic", "ff", "non_dynamic", "bw_formfactor", "bw_edw"]
 
 
 def resonances(reaction) -> list[str]:
@@ -100,6 +100,10 @@ def config_key(cfg: dict) -> str:
 def get_dynamics_builder(kind: str):
     from ampform.dynamics import builder as B  # noqa: PLC0415
 
+    if kind == "bw_formfactor":   # the two flag combinations that have no module-level convenience builder
+        return B.RelativisticBreitWignerBuilder(form_factor=True, energy_dependent_width=False)
+    if kind == "bw_edw":
+        return B.RelativisticBreitWignerBuilder(form_factor=False, energy_dependent_width=True)
     return {"bw": B.create_relativistic_breit_wigner, "bw_ff": B.create_relativistic_breit_wigner_with_ff,
             "analytic": B.create_analytic_breit_wigner, "ff": B.create_non_dynamic_with_ff,
             "non_dynamic": B.create_non_dynamic}[kind]
